@@ -33,6 +33,8 @@ def ordering_alphabet(N, W, ids):
         for s in graph.seqs(N, 3):
             if len(s) <= 2 or len(set(s)) == 3:
                 A.append(act("SetChildren", n=n, seq=s))
+                if len(s) >= 1:
+                    A.append(act("SetChildren", n=n, seq=s, via=2))     # a generator as value
         for t in tasks:
             A.append(act("ChAppend", n=n, t=t))
             A.append(act("ChRemove", n=n, t=t))
@@ -195,6 +197,29 @@ def model_states(ids, W, L, level, log):
     return r, states
 
 
+def sorting_alphabet(N):
+    """Alphabet of the sorting universe: one flat root list of N tasks, every way to order it.  Four listed
+    tasks are the least with which a sort that is refused half-way (a key that cannot be compared) has already
+    moved something."""
+    A = []
+    act = graph.act
+    n = N + 1
+    tasks = range(1, N + 1)
+    for t in tasks:
+        A.append(act("ChAppend", n=n, t=t))
+        A.append(act("ChRemove", n=n, t=t))
+        A.append(act("ChInsert", n=n, t=t, i=0))
+        A.append(act("ChInsert", n=n, t=t, i=1))
+        for anchor in tasks:
+            A.append(act("ChMove", n=n, seq=[t], before=anchor))
+            A.append(act("ChMove", n=n, seq=[t, t], after=anchor))
+    for key in (1, 2, 3):
+        for rev in (0, 1):
+            A.append(act("ChSort", n=n, key=key, rev=rev))
+            A.append(act("ChSort", n=n, key=key, rev=rev, via=1))
+    return A
+
+
 def impl_core_states(res):
     out = set()
     for k in res.state_keys:
@@ -222,13 +247,15 @@ def run(tier, seed, log):
     configs = [dict(name="A", ids=ids_a, W=2, L=2, level=3, prune=True, light=(tier == "quick"))]
     ids_b = [0, -1, 5]
     configs.append(dict(name="B", ids=ids_b, W=1, alphabet=ordering_alphabet(3, 1, ids_b), prune=True))
+    configs.append(dict(name="S", ids=[7, -2, 5, 3], W=1, alphabet=sorting_alphabet(4), prio=[2, 1, 1, 0]))
     if tier == "thorough":
         configs.append(dict(name="C", ids=[0, 2, 0, -3], W=2, L=2, level=2, prune=True, max_levels=4,
                             frontier_cap=600))
     impl_a = None
     for cfg in configs:
         rng = random.Random(seed * 7919 + len(cfg["ids"]))
-        res = explore.run(cfg["ids"], cfg["W"], L=cfg.get("L", 2), level=cfg.get("level", 2),
+        start = graph.Universe(cfg["ids"], cfg["W"], prio=cfg["prio"]) if cfg.get("prio") else None
+        res = explore.run(cfg["ids"], cfg["W"], L=cfg.get("L", 2), level=cfg.get("level", 2), start=start,
                           alphabet=cfg.get("alphabet"), prune=cfg.get("prune", False), light=cfg.get("light", False),
                           max_levels=cfg.get("max_levels", 99), frontier_cap=cfg.get("frontier_cap"),
                           max_states=cfg.get("max_states", 6000),
@@ -245,7 +272,7 @@ def run(tier, seed, log):
         for e, clause in res.fails:
             fails.append({"clause": clause,
                           "universe": {"ids": cfg["ids"], "W": cfg["W"],
-                                       "prio": graph.default_prio(len(cfg["ids"]))},
+                                       "prio": cfg.get("prio") or graph.default_prio(len(cfg["ids"]))},
                           "history": explore.history_to(res, e["pk"]) + [e["act"]]})
         if cfg["name"] == "A":
             impl_a = res
@@ -308,8 +335,43 @@ def run(tier, seed, log):
             nargs = (1 if last["n"] else 0) + bin(last["key"]).count("1")
             if nargs >= 2:                     # rejected for a LATER relation argument: the known finding
                 f.setdefault("tags", []).append("ctor-partial")
+        if str(last.get("name", "")).startswith("Bulk") and f["clause"] == "C15.unchanged" and _bulk_prefix(f):
+            f.setdefault("tags", []).append("bulk-setattr")
     return {"engine": "graph", "tier": tier, "seed": seed, "wall_s": time.time() - t0, "fails": fails,
             "coverage": cov}
+
+
+def _bulk_prefix(f):
+    """True when the state a rejected bulk assignment (<task list>.parent = p, .predecessors = ts) left behind is
+    exactly the one reached by the single assignments to the FIRST k >= 1 listed tasks, the next one being
+    rejected: the call-site class of the known finding KF-C15-bulk-setattr and nothing else."""
+    u = f["universe"]
+    hist = f["history"]
+    last = hist[-1]
+
+    def fresh():
+        U = graph.Universe(u["ids"], u["W"], prio=u["prio"])
+        for a in hist[:-1]:
+            graph.apply(U, a)
+        return U
+    U = fresh()
+    listed = graph.project(U, attrs=False, obs=False)["ch"][last["n"] - 1]
+    out, _ = graph.apply(U, last)
+    got = graph.project(U, obs=False)
+    V = fresh()
+    k = 0
+    for t in listed:
+        if last["name"] == "BulkParent":
+            step = graph.act("SetParent", t=t, n=last["t"])
+        else:
+            step = graph.act("SetPreds", t=t, seq=last["seq"])
+        o, _ = graph.apply(V, step)
+        if o != "ok":
+            break
+        k += 1
+    else:
+        return False
+    return out != "ok" and k >= 1 and graph.project(V, obs=False) == got
 
 
 def replay(case, log):
